@@ -103,12 +103,12 @@ class C08(VariantCheck):
                                workers=4, timeout=2400, heap="8g", constants={"U": u, "N": n, "Eps": eps, "EpsRec": er}))
         ms.append(ModelRun("Compressed.tla", comp_cfg("Compressed_wlevel", 10, 7, 1, 1, "WitnessOneStoredLevel", 1), "witness: a recursive index with a stored level below the root", workers=2, timeout=600,
                            expect="violation:*", constants={"U": 10, "N": 7, "EpsRec": 1}))
-        nsim = 500 if tier == "quick" else 6000
+        nsim = 1500 if tier == "quick" else 8000
         ms.append(ModelRun("Compressed.tla", comp_cfg("Compressed_sim", 30, 30, 1, 1, ALLC + " InBounds", 1, minlen=24, maxstep=2),
                            "simulation: arrays of 24..30 keys (gaps 0..2), recursive index with two stored levels below the root", workers=4, timeout=1800,
                            simulate="num=%d,depth=40" % nsim, exhaustive=False, constants={"U": 30, "N": 30, "Eps": 1, "EpsRec": 1, "traces": 4 * nsim}))
         ms.append(ModelRun("Compressed.tla", comp_cfg("Compressed_w2", 30, 30, 1, 1, "WitnessTwoStoredLevels", 1, minlen=24, maxstep=2),
-                           "witness (simulation): two stored levels below the root", workers=2, timeout=600, simulate="num=3000,depth=40",
+                           "witness (simulation): two stored levels below the root", workers=2, timeout=600, simulate="num=30000,depth=40",
                            expect="violation:*", exhaustive=False, constants={"U": 30, "N": 30}))
         ms.append(ModelRun("Compressed.tla", comp_cfg("Compressed_seam", 12, 8, 1, 3, "Shape C08Present C08LowerBound"),
                            "sensitivity: a first level built in 3 chunks violates the search contract (F16 with exact geometry)", workers=4, timeout=900,
